@@ -41,19 +41,11 @@ Proof. exact fuel_for_adequate. Qed.
 Theorem C07_script_terminates : forall d ts, statements_loop (Datatypes.S (List.length ts)) (fuel_for ts) d ts [] <> Err OutOfFuel.
 Proof. exact script_budget_adequate. Qed.
 (* together: on every token list every entry point ends in a tree or in one of the library's own errors *)
-Definition lib_err (e : err) : bool := match e with Crash _ | OutOfFuel => false | _ => true end.
 Theorem C07_parser_total : forall f d ts, match run (fuel_for ts) f d None ts with Ok _ => True | Err e => lib_err e = true end.
-Proof.
-  intros f d ts. pose proof (RP_run (fuel_for ts) f d None ts I) as R. pose proof (fuel_for_adequate f d None ts) as N.
-  destruct (run (fuel_for ts) f d None ts) as [x|e]; [exact I|]. destruct e; try reflexivity; [discriminate R|exfalso; apply N; reflexivity].
-Qed.
+Proof. exact parser_total. Qed.
 Theorem C07_script_total : forall d ts,
   match statements_loop (Datatypes.S (List.length ts)) (fuel_for ts) d ts [] with Ok _ => True | Err e => lib_err e = true end.
-Proof.
-  intros d ts. pose proof (RP_statements_loop (Datatypes.S (List.length ts)) (fuel_for ts) d ts [] (Forall_nil _)) as R.
-  pose proof (script_budget_adequate d ts) as N.
-  destruct (statements_loop _ _ d ts []) as [x|e]; [exact I|]. destruct e; try reflexivity; [discriminate R|exfalso; apply N; reflexivity].
-Qed.
+Proof. exact script_total. Qed.
 
 (* 3. A rejected input leaves no trace: the models are pure functions of their arguments -- there is no state a failed
    call could leave behind (determinism is the only thing to state) *)
